@@ -372,47 +372,8 @@ pub fn rt(t: u8) -> RunningTime {
 impl<'a, Mk> System<'a> for HSysT<Mk> {
     type SystemData = HData<'a>;
 
-    fn run(&mut self, mut data: HData<'a>) {
-        let ctx = self.ctx.clone();
-        let me = self as *const _ as usize;
-        ctx.note_addr(self.gid, me);
-        let logx = ctx.log_exec.load(Ordering::Relaxed);
-        if logx {
-            // linearisation point: all guards are held
-            ctx.ev(json!({"ev":"fetch","s":self.gid,"th":ctx.thread()}));
-        }
-        ctx.gate(self.gid);
-        let must_panic = {
-            let mut ps = ctx.panic_set.lock().unwrap();
-            let hit = ps.contains(&self.gid);
-            if hit && ctx.panic_once.load(Ordering::Relaxed) {
-                ps.remove(&self.gid);
-            }
-            hit
-        };
-        if must_panic {
-            if logx {
-                ctx.ev(json!({"ev":"panic","s":self.gid}));
-            }
-            std::panic::panic_any(HPanic(self.gid));
-        }
-        let mut sum: u64 = 0;
-        let mut seen = Vec::with_capacity(data.r.len());
-        for (i, g) in data.r.iter().enumerate() {
-            let v = g.get();
-            seen.push(v);
-            sum += (i as u64 + 1) * v as u64;
-        }
-        let mut nv = Vec::with_capacity(data.w.len());
-        for g in data.w.iter_mut() {
-            let v = hash_step(g.get(), self.gid, sum);
-            g.set(v);
-            nv.push(v);
-        }
-        if logx {
-            // still holding every guard
-            ctx.ev(json!({"ev":"finish","s":self.gid,"nv":nv,"seen":seen}));
-        }
+    fn run(&mut self, data: HData<'a>) {
+        run_body(self.gid, &self.ctx, data, self as *const _ as usize);
     }
 
     fn running_time(&self) -> RunningTime {
@@ -439,6 +400,143 @@ impl<'a, Mk> System<'a> for HSysT<Mk> {
             self.ctx.ev(json!({"ev":"dispose","s":self.gid,"th":self.ctx.thread()}));
         }
     }
+}
+
+/// What every harness system does inside `run` (events at the linearisation points, gate, injected panic,
+/// the order-sensitive update).
+pub fn run_body<'a>(gid: usize, ctx: &Arc<Ctx>, mut data: HData<'a>, me: usize) {
+    ctx.note_addr(gid, me);
+    let logx = ctx.log_exec.load(Ordering::Relaxed);
+    if logx {
+        // linearisation point: all guards are held
+        ctx.ev(json!({"ev":"fetch","s":gid,"th":ctx.thread()}));
+    }
+    ctx.gate(gid);
+    let must_panic = {
+        let mut ps = ctx.panic_set.lock().unwrap();
+        let hit = ps.contains(&gid);
+        if hit && ctx.panic_once.load(Ordering::Relaxed) {
+            ps.remove(&gid);
+        }
+        hit
+    };
+    if must_panic {
+        if logx {
+            ctx.ev(json!({"ev":"panic","s":gid}));
+        }
+        std::panic::panic_any(HPanic(gid));
+    }
+    let mut sum: u64 = 0;
+    let mut seen = Vec::with_capacity(data.r.len());
+    for (i, g) in data.r.iter().enumerate() {
+        let v = g.get();
+        seen.push(v);
+        sum += (i as u64 + 1) * v as u64;
+    }
+    let mut nv = Vec::with_capacity(data.w.len());
+    for g in data.w.iter_mut() {
+        let v = hash_step(g.get(), gid, sum);
+        g.set(v);
+        nv.push(v);
+    }
+    if logx {
+        // still holding every guard
+        ctx.ev(json!({"ev":"finish","s":gid,"nv":nv,"seen":seen}));
+    }
+}
+
+
+
+// ---------------------------------------------------------------- zero-sized systems
+// Unit structs are what most users register.  A zero-sized system cannot carry its identity, its accessor
+// or its context: `ZSys<K, _>` finds them in slot K of a process-wide table.
+
+pub const NZ: usize = 48;
+
+pub struct ZEntry {
+    pub gid: usize,
+    pub acc: HAcc,
+    pub t: u8,
+    pub ctx: Arc<Ctx>,
+}
+
+fn zreg() -> &'static Vec<std::sync::RwLock<Option<Arc<ZEntry>>>> {
+    static REG: std::sync::OnceLock<Vec<std::sync::RwLock<Option<Arc<ZEntry>>>>> = std::sync::OnceLock::new();
+    REG.get_or_init(|| (0..NZ).map(|_| std::sync::RwLock::new(None)).collect())
+}
+
+/// Claims a free slot for `e`.
+pub fn zalloc(e: ZEntry) -> Option<usize> {
+    let e = Arc::new(e);
+    for (k, slot) in zreg().iter().enumerate() {
+        let mut g = slot.write().unwrap_or_else(|p| p.into_inner());
+        if g.is_none() {
+            *g = Some(e);
+            return Some(k);
+        }
+    }
+    None
+}
+
+pub fn zfree(k: usize) {
+    *zreg()[k].write().unwrap_or_else(|p| p.into_inner()) = None;
+}
+
+fn zget(k: usize) -> Arc<ZEntry> {
+    zreg()[k].read().unwrap_or_else(|p| p.into_inner()).clone().expect("HARNESS: zero-sized system without a table entry")
+}
+
+pub struct ZSys<const K: usize, Mk>(pub PhantomData<Mk>);
+
+impl<'a, const K: usize, Mk> System<'a> for ZSys<K, Mk> {
+    type SystemData = HData<'a>;
+
+    fn run(&mut self, data: HData<'a>) {
+        let e = zget(K);
+        run_body(e.gid, &e.ctx, data, self as *const _ as usize);
+    }
+
+    fn running_time(&self) -> RunningTime {
+        rt(zget(K).t)
+    }
+
+    fn accessor<'b>(&'b self) -> AccessorCow<'a, 'b, Self> {
+        AccessorCow::Owned(zget(K).acc.clone())
+    }
+
+    fn setup(&mut self, world: &mut World) {
+        let e = zget(K);
+        if e.ctx.setup_log.load(Ordering::Relaxed) {
+            e.ctx.ev(json!({"ev":"setup","s":e.gid,"th":e.ctx.thread()}));
+        }
+        <HData as DynamicSystemData>::setup(&e.acc, world)
+    }
+
+    fn dispose(self, _world: &mut World)
+    where
+        Self: Sized,
+    {
+        let e = zget(K);
+        if e.ctx.setup_log.load(Ordering::Relaxed) {
+            e.ctx.ev(json!({"ev":"dispose","s":e.gid,"th":e.ctx.thread()}));
+        }
+    }
+}
+
+/// `$body` with `$z` bound to a fresh `ZSys<$k, $mk>` (k is a run-time value below NZ).
+#[macro_export]
+macro_rules! with_zsys {
+    ($k:expr, $mk:ty, |$z:ident| $body:expr) => {
+        $crate::with_zsys!(@arms $k, $mk, $z, $body,
+            0 1 2 3 4 5 6 7 8 9 10 11 12 13 14 15 16 17 18 19 20 21 22 23
+            24 25 26 27 28 29 30 31 32 33 34 35 36 37 38 39 40 41 42 43 44 45 46 47)
+    };
+    (@arms $k:expr, $mk:ty, $z:ident, $body:expr, $($n:literal)*) => {
+        match $k {
+            $( $n => { let $z = $crate::sys::ZSys::<$n, $mk>(std::marker::PhantomData); $body } )*
+            _ => unreachable!("zero-sized slot out of range"),
+        }
+    };
 }
 
 /// Panic payload of harness-injected panics.
